@@ -161,6 +161,8 @@ class _ControlLoopRunner:
         self._idle_check_pending = False
         # Pending worker coroutines not yet started (started by adapter in wait_for_next_task)
         self._pending_workers: list[PendingStart] = []
+        # Worker tasks that had already finished when a scheduled tick was first seen to be due
+        self._finished_before_due: set[asyncio.Task[TickStepResult]] | None = None
 
     def schedule_tick(self, tick: WorkflowTick, at_time: float) -> None:
         """Schedule a tick to be processed at a specific time."""
@@ -403,6 +405,25 @@ class _ControlLoopRunner:
                 # Get current time
                 now = await self.adapter.get_now()
 
+                # Scheduled ticks that are due are also collected here, not only
+                # when the wait below times out: steps that complete without ever
+                # really awaiting always leave a finished worker behind, so that
+                # wait would never time out and the workflow timeout (or a retry
+                # delay, a waiter timeout) would be starved. Workers that had
+                # already finished when the tick was first seen to be due are
+                # still handled first (a run that finished first is not timed
+                # out); later completions do not hold the tick back any further.
+                if self.scheduled_wakeups and self.scheduled_wakeups[0][0] <= now:
+                    if self._finished_before_due is None:
+                        self._finished_before_due = {
+                            t for t in self.worker_tasks if t.done()
+                        }
+                    self._finished_before_due &= self.worker_tasks
+                    if not self._finished_before_due:
+                        self._finished_before_due = None
+                        for due_tick in self.pop_due_ticks(now):
+                            self.tick_buffer.append(due_tick)
+
                 # optimization, only reload "now" if any work was done
                 was_buffered = bool(self.tick_buffer)
                 # Drain and process buffered ticks first (from rehydration, queue_tick, etc.)
@@ -474,6 +495,7 @@ class _ControlLoopRunner:
                 if completed_task is None:
                     # Timeout - process scheduled ticks
                     now = await self.adapter.get_now()
+                    self._finished_before_due = None
                     for due_tick in self.pop_due_ticks(now):
                         self.tick_buffer.append(due_tick)
                     continue
